@@ -91,7 +91,18 @@ def _inputs(desc):
     return x
 
 
-def _run(desc, x, gen):
+def _arg(keep, make):
+    """the tensor handed to the encoder: made once per case and handed over again on the repetition (a stimulus replayed over
+    trials); a snapshot tells afterwards whether the callee wrote into it"""
+    if keep is None:
+        return make()
+    if "arg" not in keep:
+        keep["arg"] = make()
+        keep["snap"] = keep["arg"].clone()
+    return keep["arg"]
+
+
+def _run(desc, x, gen, keep=None):
     """-> (T, *shape) bool tensor plus meta about how many slices an online run yielded"""
     kind, dt, steps = desc["kind"], desc["dt"], desc["steps"]
     refrac = None if desc["refrac_steps"] is None else desc["refrac_steps"] * dt
@@ -99,7 +110,7 @@ def _run(desc, x, gen):
     online = desc["online"]
     if kind == "inhomogeneous":
         xs = x.unsqueeze(0).expand(steps, *x.shape).clone()
-        out = nf.inhomogeneous_poisson_bernoulli_approx(f * xs, dt, generator=gen)
+        out = nf.inhomogeneous_poisson_bernoulli_approx(_arg(keep, lambda: f * xs), dt, generator=gen)
         return out, None
     if desc["module"]:
         if desc.get("reconfigure"):
@@ -132,9 +143,9 @@ def _run(desc, x, gen):
             enc = neural.HomogeneousPoissonApproxEncoder(steps, dt, f, generator=gen)
         else:
             enc = neural.PoissonIntervalEncoder(steps, dt, f, generator=gen)
-        res = enc(x.clone(), online=online)
+        res = enc(_arg(keep, lambda: x.clone(memory_format=torch.preserve_format)), online=online)
     else:
-        fx = f * x
+        fx = _arg(keep, lambda: f * x)
         if kind == "exp_interval":
             fn = nf.homogeneous_poisson_exp_interval_online if online else nf.homogeneous_poisson_exp_interval
             res = fn(fx, steps, dt, refrac=refrac, compensate=desc["compensate"], generator=gen)
@@ -173,10 +184,11 @@ def run_case(ctx, desc):
         ctx.count("online_runs_collected_before_use")
     if desc.get("layout") == "transposed" and x.ndim >= 2 and not x.is_contiguous():
         ctx.count("intensity_tensors_not_row_major")
+    keep = {}
     for rep in range(2):
         gen = torch.Generator().manual_seed(desc["seed"])
         try:
-            res, nsl = _run(desc, x.clone(memory_format=torch.preserve_format), gen)
+            res, nsl = _run(desc, x.clone(memory_format=torch.preserve_format), gen, keep)
         except Exception as e:  # noqa: BLE001
             ctx.violation(ctx.exc_signature(e, opk + (".multi_element" if x.numel() > 1 else ".single_element")),
                           f"encoder raised {type(e).__name__}: {str(e)[:140]}", desc)
@@ -194,6 +206,9 @@ def run_case(ctx, desc):
             return ctx.violation(f"{opk}.shape", f"shape {tuple(res.shape)} expected {(steps,) + shape}", desc)
         outs.append(res)
     ctx.count("shape_dtype_checks")
+    ctx.count("input_tensors_checked_after_two_encodings")
+    if not torch.equal(keep["arg"], keep["snap"]):
+        return ctx.violation(f"{opk}.input_tensor_modified", "the encoder wrote into the intensity tensor it was given", desc)
     if not torch.equal(outs[0], outs[1]):
         return ctx.violation(f"{opk}.not_reproducible", "same generator state gave different spike trains", desc)
     ctx.count("reproducibility_checks")
